@@ -226,114 +226,114 @@ def buildCmp (op : CmpOp) (src : Source) (e : Entry) (h : HAttrs) : R CmpImpl :=
 /-! ## Rendering -/
 
 /-- `Template::apply`: every `$` becomes the value -/
-def applyTemplate (tmpl : Toks) (value : Toks) : Toks :=
-  tmpl.flatMap fun t => if t == "$" then value else [t]
+def applyTemplate (tmpl : Toks) (value : GToks) : GToks :=
+  tmpl.flatMap fun t => if t == "$" then value else [u t]
 
 inductive SrcKind where
   | struct_ | enum_
 deriving BEq, DecidableEq, Inhabited
 
-def selfOf (k : SrcKind) (f : FieldE) : Toks :=
+def selfOf (k : SrcKind) (f : FieldE) : GToks :=
   match k with
-  | .struct_ => paren ["self", ".", f.member]
+  | .struct_ => paren ["self", ".", u f.member]
   | .enum_ => paren ["*", f.makeIdent "__self"]
-def thisOf (k : SrcKind) (f : FieldE) : Toks :=
+def thisOf (k : SrcKind) (f : FieldE) : GToks :=
   match k with
-  | .struct_ => paren ["__this", ".", f.member]
+  | .struct_ => paren ["__this", ".", u f.member]
   | .enum_ => paren ["*", f.makeIdent "__this"]
-def otherOf (k : SrcKind) (f : FieldE) : Toks :=
+def otherOf (k : SrcKind) (f : FieldE) : GToks :=
   match k with
-  | .struct_ => paren ["__other", ".", f.member]
+  | .struct_ => paren ["__other", ".", u f.member]
   | .enum_ => paren ["*", f.makeIdent "__other"]
 
-def optOrdering : Toks := absPath ["core", "option", "Option"] ++ angle (absPath ["core", "cmp", "Ordering"])
-def ordering : Toks := absPath ["core", "cmp", "Ordering"]
-def someEqual : Toks := absPath ["core", "option", "Option", "Some"] ++ paren (absPath ["core", "cmp", "Ordering", "Equal"])
-def orderingEqual : Toks := absPath ["core", "cmp", "Ordering", "Equal"]
-def coreFn : Toks := absPath ["core", "ops", "Fn"]
+def optOrdering : GToks := absPath ["core", "option", "Option"] +++ angle (absPath ["core", "cmp", "Ordering"])
+def ordering : GToks := absPath ["core", "cmp", "Ordering"]
+def someEqual : GToks := absPath ["core", "option", "Option", "Some"] +++ paren (absPath ["core", "cmp", "Ordering", "Equal"])
+def orderingEqual : GToks := absPath ["core", "cmp", "Ordering", "Equal"]
+def coreFn : GToks := absPath ["core", "ops", "Fn"]
 
-def refTy (ty : Ty) : Toks := "&" :: ty.toks
+def refTy (ty : Ty) : GToks := "&" ::: U ty.toks
 /-- `&__T`: the helper functions are generic over the field type -/
-def refT : Toks := ["&", "__T"]
-def helperT : Toks := angle (["__T", ":", "?"] ++ absPath ["core", "marker", "Sized"])
+def refT : GToks := ["&", "__T"]
+def helperT : GToks := angle (["__T", ":", "?"] +++ absPath ["core", "marker", "Sized"])
 
 /-- `{ fn id(params) ret { body } id(args) }` -/
-def helperFnBlock (id : Tok) (generics : Toks) (params : List Toks) (ret : Toks) (body : Toks) (args : List Toks) : Toks :=
-  brace ("fn" :: id :: generics ++ paren (sepBy "," params) ++ ret ++ brace body ++ id :: paren (sepBy "," args))
+def helperFnBlock (id : Tok) (generics : GToks) (params : List GToks) (ret : GToks) (body : GToks) (args : List GToks) : GToks :=
+  brace ("fn" ::: id ::: generics +++ paren (sepBy "," params) +++ ret +++ brace body +++ id ::: paren (sepBy "," args))
 
-def ufcs2 (path : List String) (a b : Toks) : Toks :=
-  absPath path ++ paren ("&" :: paren a ++ "," :: "&" :: paren b)
+def ufcs2 (path : List String) (a b : GToks) : GToks :=
+  absPath path +++ paren ("&" ::: paren a +++ "," ::: "&" ::: paren b)
 
-def peExpr (k : SrcKind) (cf : CmpField) : Toks :=
+def peExpr (k : SrcKind) (cf : CmpField) : GToks :=
   let f := cf.f
   let id := f.makeIdent "__eq_"
   let this := selfOf k f
   let other := otherOf k f
-  let args (e : Toks) : List Toks := ["&" :: this, "&" :: other, e]
+  let args (e : Toks) : List GToks := ["&" ::: this, "&" ::: other, U e]
   match cf.sel with
   | .by_ .partialOrd e =>
     helperFnBlock id helperT
-      [["__this", ":"] ++ refT, ["__other", ":"] ++ refT,
-       ["__partial_cmp", ":", "impl"] ++ coreFn ++ paren (refT ++ "," :: refT) ++ "->" :: optOrdering]
+      [["__this", ":"] +++ refT, ["__other", ":"] +++ refT,
+       ["__partial_cmp", ":", "impl"] +++ coreFn +++ paren (refT +++ "," ::: refT) +++ "->" ::: optOrdering]
       ["->", "bool"]
-      (["__partial_cmp"] ++ paren ["__this", ",", "__other"] ++ "==" :: someEqual)
+      (["__partial_cmp"] +++ paren ["__this", ",", "__other"] +++ "==" ::: someEqual)
       (args e)
   | .by_ .ord e =>
     helperFnBlock id helperT
-      [["__this", ":"] ++ refT, ["__other", ":"] ++ refT,
-       ["__cmp", ":", "impl"] ++ coreFn ++ paren (refT ++ "," :: refT) ++ "->" :: ordering]
+      [["__this", ":"] +++ refT, ["__other", ":"] +++ refT,
+       ["__cmp", ":", "impl"] +++ coreFn +++ paren (refT +++ "," ::: refT) +++ "->" ::: ordering]
       ["->", "bool"]
-      (["__cmp"] ++ paren ["__this", ",", "__other"] ++ "==" :: orderingEqual)
+      (["__cmp"] +++ paren ["__this", ",", "__other"] +++ "==" ::: orderingEqual)
       (args e)
   | .by_ _ e =>
     helperFnBlock id helperT
-      [["__this", ":"] ++ refT, ["__other", ":"] ++ refT,
-       ["__eq", ":", "impl"] ++ coreFn ++ paren (refT ++ "," :: refT) ++ ["->", "bool"]]
+      [["__this", ":"] +++ refT, ["__other", ":"] +++ refT,
+       ["__eq", ":", "impl"] +++ coreFn +++ paren (refT +++ "," ::: refT) +++ ["->", "bool"]]
       ["->", "bool"]
-      (["__eq"] ++ paren ["__this", ",", "__other"])
+      (["__eq"] +++ paren ["__this", ",", "__other"])
       (args e)
   | .key _ t => ufcs2 ["core", "cmp", "PartialEq", "eq"] (applyTemplate t this) (applyTemplate t other)
   | .dflt => ufcs2 ["core", "cmp", "PartialEq", "eq"] this other
 
-def eqChecker (this : Toks) : Toks :=
-  brace (["fn", "_eq", "<", "T", ":"] ++ absPath ["core", "cmp", "Eq"] ++ ["+", "?"] ++ absPath ["core", "marker", "Sized"] ++ [">"] ++ paren ["__this", ":", "&", "T"] ++ brace [] ++
-    "_eq" :: paren ("&" :: paren this))
+def eqChecker (this : GToks) : GToks :=
+  brace (["fn", "_eq", "<", "T", ":"] +++ absPath ["core", "cmp", "Eq"] +++ ["+", "?"] +++ absPath ["core", "marker", "Sized"] +++ [">"] +++ paren ["__this", ":", "&", "T"] +++ brace [] +++
+    "_eq" ::: paren ("&" ::: paren this))
 
-def eqExpr (k : SrcKind) (cf : CmpField) : Toks :=
+def eqExpr (k : SrcKind) (cf : CmpField) : GToks :=
   let this := thisOf k cf.f
   match cf.sel with
   | .by_ _ _ => []
   | .key _ t => eqChecker (applyTemplate t this)
   | .dflt => eqChecker this
 
-def poExpr (k : SrcKind) (cf : CmpField) : Toks :=
+def poExpr (k : SrcKind) (cf : CmpField) : GToks :=
   let f := cf.f
   let id := f.makeIdent "__partial_ord_"
   let this := selfOf k f
   let other := otherOf k f
-  let args (e : Toks) : List Toks := ["&" :: this, "&" :: other, e]
+  let args (e : Toks) : List GToks := ["&" ::: this, "&" ::: other, U e]
   let e0 := match cf.sel with
     | .by_ .ord e =>
       helperFnBlock id helperT
-        [["__this", ":"] ++ refT, ["__other", ":"] ++ refT,
-         ["__cmp", ":", "impl"] ++ coreFn ++ paren (refT ++ "," :: refT) ++ "->" :: ordering]
-        ("->" :: optOrdering)
-        (absPath ["core", "option", "Option", "Some"] ++ paren ("__cmp" :: paren ["__this", ",", "__other"]))
+        [["__this", ":"] +++ refT, ["__other", ":"] +++ refT,
+         ["__cmp", ":", "impl"] +++ coreFn +++ paren (refT +++ "," ::: refT) +++ "->" ::: ordering]
+        ("->" ::: optOrdering)
+        (absPath ["core", "option", "Option", "Some"] +++ paren ("__cmp" ::: paren ["__this", ",", "__other"]))
         (args e)
     | .by_ _ e =>
       helperFnBlock id helperT
-        [["__this", ":"] ++ refT, ["__other", ":"] ++ refT,
-         ["__partial_cmp", ":", "impl"] ++ coreFn ++ paren (refT ++ "," :: refT) ++ "->" :: optOrdering]
-        ("->" :: optOrdering)
-        ("__partial_cmp" :: paren ["__this", ",", "__other"])
+        [["__this", ":"] +++ refT, ["__other", ":"] +++ refT,
+         ["__partial_cmp", ":", "impl"] +++ coreFn +++ paren (refT +++ "," ::: refT) +++ "->" ::: optOrdering]
+        ("->" ::: optOrdering)
+        ("__partial_cmp" ::: paren ["__this", ",", "__other"])
         (args e)
     | .key _ t => ufcs2 ["core", "cmp", "PartialOrd", "partial_cmp"] (applyTemplate t this) (applyTemplate t other)
     | .dflt => ufcs2 ["core", "cmp", "PartialOrd", "partial_cmp"] this other
   if cf.rev then
-    absPath ["core", "option", "Option", "map"] ++ paren (e0 ++ "," :: absPath ["core", "cmp", "Ordering", "reverse"])
+    absPath ["core", "option", "Option", "map"] +++ paren (e0 +++ "," ::: absPath ["core", "cmp", "Ordering", "reverse"])
   else e0
 
-def ordExpr (k : SrcKind) (cf : CmpField) : Toks :=
+def ordExpr (k : SrcKind) (cf : CmpField) : GToks :=
   let f := cf.f
   let id := f.makeIdent "__ord_"
   let this := selfOf k f
@@ -341,110 +341,110 @@ def ordExpr (k : SrcKind) (cf : CmpField) : Toks :=
   let e0 := match cf.sel with
     | .by_ _ e =>
       helperFnBlock id helperT
-        [["__this", ":"] ++ refT, ["__other", ":"] ++ refT,
-         ["__cmp", ":", "impl"] ++ coreFn ++ paren (refT ++ "," :: refT) ++ "->" :: ordering]
-        ("->" :: ordering)
-        ("__cmp" :: paren ["__this", ",", "__other"])
-        ["&" :: this, "&" :: other, e]
+        [["__this", ":"] +++ refT, ["__other", ":"] +++ refT,
+         ["__cmp", ":", "impl"] +++ coreFn +++ paren (refT +++ "," ::: refT) +++ "->" ::: ordering]
+        ("->" ::: ordering)
+        ("__cmp" ::: paren ["__this", ",", "__other"])
+        ["&" ::: this, "&" ::: other, U e]
     | .key _ t => ufcs2 ["core", "cmp", "Ord", "cmp"] (applyTemplate t this) (applyTemplate t other)
     | .dflt => ufcs2 ["core", "cmp", "Ord", "cmp"] this other
-  if cf.rev then absPath ["core", "cmp", "Ordering", "reverse"] ++ paren e0 else e0
+  if cf.rev then absPath ["core", "cmp", "Ordering", "reverse"] +++ paren e0 else e0
 
-def hashStmt (x : Toks) : Toks :=
-  absPath ["core", "hash", "Hash", "hash"] ++ paren ("&" :: paren x ++ [",", "__state"]) ++ [";"]
+def hashStmt (x : GToks) : GToks :=
+  absPath ["core", "hash", "Hash", "hash"] +++ paren ("&" ::: paren x +++ [",", "__state"]) +++ [";"]
 
-def hashExpr (k : SrcKind) (cf : CmpField) : Toks :=
+def hashExpr (k : SrcKind) (cf : CmpField) : GToks :=
   let f := cf.f
   let id := f.makeIdent "__hash_"
   let this := selfOf k f
   match cf.sel with
   | .by_ _ e =>
-    helperFnBlock id (angle (["__T", ":", "?"] ++ absPath ["core", "marker", "Sized"] ++ "," :: "__H" :: ":" :: absPath ["core", "hash", "Hasher"]))
-      [["__this", ":"] ++ refT, ["__state", ":", "&", "mut", "__H"],
-       ["__hash", ":", "impl"] ++ coreFn ++ paren (refT ++ [",", "&", "mut", "__H"])]
+    helperFnBlock id (angle (["__T", ":", "?"] +++ absPath ["core", "marker", "Sized"] +++ "," ::: "__H" ::: ":" ::: absPath ["core", "hash", "Hasher"]))
+      [["__this", ":"] +++ refT, ["__state", ":", "&", "mut", "__H"],
+       ["__hash", ":", "impl"] +++ coreFn +++ paren (refT +++ [",", "&", "mut", "__H"])]
       []
-      ("__hash" :: paren ["__this", ",", "__state"])
-      ["&" :: this, ["__state"], e]
+      ("__hash" ::: paren ["__this", ",", "__state"])
+      ["&" ::: this, ["__state"], U e]
   | .key _ t => hashStmt (applyTemplate t this)
   | .dflt => hashStmt this
 
 /-- `build_to_index_fn` -/
-def toIndexFn (vs : List VariantE) : Toks :=
-  ["let", "__to_index", "=", "|", "__this", ":", "&", "Self", "|", "->", "usize"] ++
-    brace ("match" :: "__this" :: brace (
-      (vs.zipIdx.flatMap fun (v, i) => paren v.makePatWildcard ++ ["=>", toString i ++ "usize", ","]) ++
-      ("_" :: "=>" :: absPath ["core", "unreachable"] ++ ["!", "(", ")", ","]))) ++ [";"]
+def toIndexFn (vs : List VariantE) : GToks :=
+  ["let", "__to_index", "=", "|", "__this", ":", "&", "Self", "|", "->", "usize"] +++
+    brace ("match" ::: "__this" ::: brace (
+      (vs.zipIdx.flatMap fun (v, i) => paren v.makePatWildcard +++ ["=>", ((toString i ++ "usize" : String) : GTok), ","]) +++
+      ("_" ::: "=>" ::: absPath ["core", "unreachable"] +++ ["!", "(", ")", ","]))) +++ [";"]
 
-def poStep (e : Toks) : Toks :=
-  "match" :: e ++ brace (someEqual ++ ["=>", "{", "}", "__o", "=>", "return", "__o", ","])
-def ordStep (e : Toks) : Toks :=
-  "match" :: e ++ brace (orderingEqual ++ ["=>", "{", "}", "__o", "=>", "return", "__o", ","])
+def poStep (e : GToks) : GToks :=
+  "match" ::: e +++ brace (someEqual +++ ["=>", "{", "}", "__o", "=>", "return", "__o", ","])
+def ordStep (e : GToks) : GToks :=
+  "match" ::: e +++ brace (orderingEqual +++ ["=>", "{", "}", "__o", "=>", "return", "__o", ","])
 
 /-- the body of `build_from_fields` for one field list -/
-def cmpFieldsBody (op : CmpOp) (k : SrcKind) (fs : List CmpField) : Toks :=
+def cmpFieldsBody (op : CmpOp) (k : SrcKind) (fs : List CmpField) : GToks :=
   match op with
   | .partialEq => if fs.isEmpty then ["true"] else sepBy "&&" (fs.map fun cf => paren (peExpr k cf))
   | .eq => fs.flatMap (eqExpr k)
-  | .partialOrd => (fs.flatMap fun cf => poStep (poExpr k cf)) ++ someEqual
-  | .ord => (fs.flatMap fun cf => ordStep (ordExpr k cf)) ++ orderingEqual
+  | .partialOrd => (fs.flatMap fun cf => poStep (poExpr k cf)) +++ someEqual
+  | .ord => (fs.flatMap fun cf => ordStep (ordExpr k cf)) +++ orderingEqual
   | .hash => fs.flatMap (hashExpr k)
 
-def CmpImpl.thisTy (c : CmpImpl) : Toks := c.name :: c.generics.useToks
+def CmpImpl.thisTy (c : CmpImpl) : GToks := u c.name ::: U c.generics.useToks
 
 /-- the method (or checker) body -/
-def CmpImpl.inner (c : CmpImpl) : Toks :=
+def CmpImpl.inner (c : CmpImpl) : GToks :=
   match c.body with
   | .struct_ fs => cmpFieldsBody c.op .struct_ fs
   | .enum_ vs =>
-    let arms2 : Toks := vs.flatMap fun (v, fs) =>
-      paren (v.makePat "__self" ++ "," :: v.makePat "__other") ++ "=>" :: brace (cmpFieldsBody c.op .enum_ fs)
+    let arms2 : GToks := vs.flatMap fun (v, fs) =>
+      paren (v.makePat "__self" +++ "," ::: v.makePat "__other") +++ "=>" ::: brace (cmpFieldsBody c.op .enum_ fs)
     match c.op with
-    | .partialEq => "match" :: paren ["self", ",", "__other"] ++ brace (arms2 ++ ["_", "=>", "false", ","])
+    | .partialEq => "match" ::: paren ["self", ",", "__other"] +++ brace (arms2 +++ ["_", "=>", "false", ","])
     | .eq =>
-      "match" :: "__this" :: brace (
-        (vs.flatMap fun (v, fs) => v.makePatWith "__this" [c.name] ++ "=>" :: brace (cmpFieldsBody .eq .enum_ fs)) ++
+      "match" ::: "__this" ::: brace (
+        (vs.flatMap fun (v, fs) => v.makePatWith "__this" [u c.name] +++ "=>" ::: brace (cmpFieldsBody .eq .enum_ fs)) +++
         ["_", "=>", "{", "}"])
     | .partialOrd =>
-      "match" :: paren ["self", ",", "__other"] ++ brace (arms2 ++
-        paren ["__this", ",", "__other"] ++ "=>" :: brace (toIndexFn (vs.map (·.1)) ++
-          absPath ["core", "cmp", "PartialOrd", "partial_cmp"] ++
-            paren (["&", "__to_index"] ++ paren ["__this"] ++ [",", "&", "__to_index"] ++ paren ["__other"])) ++ [","])
+      "match" ::: paren ["self", ",", "__other"] +++ brace (arms2 +++
+        paren ["__this", ",", "__other"] +++ "=>" ::: brace (toIndexFn (vs.map (·.1)) +++
+          absPath ["core", "cmp", "PartialOrd", "partial_cmp"] +++
+            paren (["&", "__to_index"] +++ paren ["__this"] +++ [",", "&", "__to_index"] +++ paren ["__other"])) +++ [","])
     | .ord =>
-      "match" :: paren ["self", ",", "__other"] ++ brace (arms2 ++
-        paren ["__this", ",", "__other"] ++ "=>" :: brace (toIndexFn (vs.map (·.1)) ++
-          absPath ["core", "cmp", "Ord", "cmp"] ++
-            paren (["&", "__to_index"] ++ paren ["__this"] ++ [",", "&", "__to_index"] ++ paren ["__other"])) ++ [","])
+      "match" ::: paren ["self", ",", "__other"] +++ brace (arms2 +++
+        paren ["__this", ",", "__other"] +++ "=>" ::: brace (toIndexFn (vs.map (·.1)) +++
+          absPath ["core", "cmp", "Ord", "cmp"] +++
+            paren (["&", "__to_index"] +++ paren ["__this"] +++ [",", "&", "__to_index"] +++ paren ["__other"])) +++ [","])
     | .hash =>
-      "match" :: "self" :: brace (
-        (vs.flatMap fun (v, fs) => v.makePat "__self" ++ "=>" :: brace (cmpFieldsBody .hash .enum_ fs)) ++
-        ("_" :: "=>" :: absPath ["core", "unreachable"] ++ ["!", "(", ")", ","]))
+      "match" ::: "self" ::: brace (
+        (vs.flatMap fun (v, fs) => v.makePat "__self" +++ "=>" ::: brace (cmpFieldsBody .hash .enum_ fs)) +++
+        ("_" ::: "=>" ::: absPath ["core", "unreachable"] +++ ["!", "(", ")", ","]))
 
-def cmpAttrs : Toks :=
-  attrToks ["automatically_derived"] ++ attrToks ("allow" :: paren ["clippy", "::", "double_parens"]) ++
-    attrToks ("allow" :: paren ["unused_parens"])
-def cmpAllowAttrs : Toks :=
-  attrToks ("allow" :: paren ["clippy", "::", "double_parens"]) ++ attrToks ("allow" :: paren ["unused_parens"])
+def cmpAttrs : GToks :=
+  genAttr ["automatically_derived"] +++ genAttr ["allow", "(", "clippy", "::", "double_parens", ")"] +++
+    genAttr ["allow", "(", "unused_parens", ")"]
+def cmpAllowAttrs : GToks :=
+  genAttr ["allow", "(", "clippy", "::", "double_parens", ")"] +++ genAttr ["allow", "(", "unused_parens", ")"]
 
 /-- the emitted items: one impl, plus the hidden checker for `Eq` -/
-def CmpImpl.render (c : CmpImpl) : List Toks :=
+def CmpImpl.render (c : CmpImpl) : List GToks :=
   let trait_ := c.op.path
-  let wheres := c.wc.build (fun ty => ty.toks ++ ":" :: trait_)
-  let implG := c.xgenerics.implToks
-  let head (body : Toks) : Toks :=
-    cmpAttrs ++ "impl" :: implG ++ trait_ ++ "for" :: c.thisTy ++ wheres ++ brace body
+  let wheres := c.wc.build (fun ty => U ty.toks +++ ":" ::: trait_)
+  let implG := U c.xgenerics.implToks
+  let head (body : GToks) : GToks :=
+    cmpAttrs +++ "impl" ::: implG +++ trait_ +++ "for" ::: c.thisTy +++ wheres +++ brace body
   match c.op with
   | .partialEq =>
-    [head (["fn", "eq"] ++ paren ["&", "self", ",", "__other", ":", "&", "Self"] ++ ["->", "bool"] ++ brace c.inner)]
+    [head (["fn", mem "eq"] +++ paren ["&", "self", ",", "__other", ":", "&", "Self"] +++ ["->", "bool"] +++ brace c.inner)]
   | .partialOrd =>
-    [head (["fn", "partial_cmp"] ++ paren ["&", "self", ",", "__other", ":", "&", "Self"] ++ "->" :: optOrdering ++ brace c.inner)]
+    [head (["fn", mem "partial_cmp"] +++ paren ["&", "self", ",", "__other", ":", "&", "Self"] +++ "->" ::: optOrdering +++ brace c.inner)]
   | .ord =>
-    [head (["fn", "cmp"] ++ paren ["&", "self", ",", "__other", ":", "&", "Self"] ++ "->" :: ordering ++ brace c.inner)]
+    [head (["fn", mem "cmp"] +++ paren ["&", "self", ",", "__other", ":", "&", "Self"] +++ "->" ::: ordering +++ brace c.inner)]
   | .hash =>
-    [head (["fn", "hash"] ++ angle ("__H" :: ":" :: absPath ["core", "hash", "Hasher"]) ++
-      paren ["&", "self", ",", "__state", ":", "&", "mut", "__H"] ++ brace c.inner)]
+    [head (["fn", mem "hash"] +++ angle ("__H" ::: ":" ::: absPath ["core", "hash", "Hasher"]) +++
+      paren ["&", "self", ",", "__state", ":", "&", "mut", "__H"] +++ brace c.inner)]
   | .eq =>
     [head [],
-     ["const", "_", ":", "(", ")", "="] ++ brace (cmpAllowAttrs ++ "fn" :: "_f" :: implG ++
-        paren ("__this" :: ":" :: "&" :: c.thisTy) ++ wheres ++ brace c.inner) ++ [";"]]
+     ["const", "_", ":", "(", ")", "="] +++ brace (cmpAllowAttrs +++ "fn" ::: "_f" ::: implG +++
+        paren ("__this" ::: ":" ::: "&" ::: c.thisTy) +++ wheres +++ brace c.inner) +++ [";"]]
 
 end DX
